@@ -77,7 +77,7 @@ def _c11(seed, idx, tier):
     return conc.c11_case(seed, idx, tier)
 
 
-reg("C11", "C11", _c11, "exploration", {"quick": 320, "thorough": 4000},
+reg("C11", "C11", _c11, "exploration", {"quick": 240, "thorough": 4000},
     rule="cases cycle through: (0) repetition A, B, A' in one process + argument snapshots on forced endings; (1) nested "
          "minimize calls from the outer objective / callback; (2,3) threaded worlds: 2-16 clients with different "
          "statements (30 % sharing Bounds / LinearConstraint / options objects), real threads released one at a time by a "
